@@ -252,12 +252,33 @@ func (tr *gtTr) calleeMuts(c *ast.CallExpr, env *venv) []stKey {
 // mutCall translates a call that changes the caller's state, as a statement: lhs (may be nil) receives the results.
 func (tr *gtTr) mutCall(c *ast.CallExpr, lhs []string, declare bool, env *venv, next cont) (gnode, bool) {
 	keys := tr.calleeMuts(c, env)
+	var callee *gtFn
 	if len(keys) == 0 {
-		return nil, false
+		// a call without effects that returns several values: a, b := f(x)
+		if len(lhs) < 2 || c.Ellipsis.IsValid() {
+			return nil, false
+		}
+		if _, _, isLib := tr.libCall(c, env); isLib {
+			return nil, false
+		}
+		switch f := c.Fun.(type) {
+		case *ast.Ident:
+			if env.lookup(f.Name) != nil || tr.p.funcs[f.Name] == nil {
+				return nil, false
+			}
+		case *ast.SelectorExpr:
+		default:
+			return nil, false
+		}
+		callee, _ = tr.resolveCallee(c, env)
+		if len(callee.results) < 2 {
+			return nil, false
+		}
+	} else {
+		sel := c.Fun.(*ast.SelectorExpr)
+		recv := env.lookup(unparen(sel.X).(*ast.Ident).Name)
+		callee = tr.st.translate(tr.g, recv.typ.ndir, recv.typ.nname+"."+sel.Sel.Name, tr.fn)
 	}
-	sel := c.Fun.(*ast.SelectorExpr)
-	recv := env.lookup(unparen(sel.X).(*ast.Ident).Name)
-	callee := tr.st.translate(tr.g, recv.typ.ndir, recv.typ.nname+"."+sel.Sel.Name, tr.fn)
 	if len(lhs) != 0 && len(lhs) != len(callee.results) {
 		gtFail("call of %s: %d targets for %d results", callee.key, len(lhs), len(callee.results))
 	}
